@@ -126,6 +126,7 @@ def check(run):
     for n in ('EFITEquilibrium', 'EFITLCFSMask', 'MagneticField', 'PoloidalFieldVector', 'FluxSurfaceNormal', 'FluxCoordToCartesian'):
         if n not in classes:
             raise AnalysisError('anchored class vanished: %s' % n)
+    _PROG[0] = prog
     _r1(run, classes)
     _r2(run, classes)
     run.include('C13', {'cherab/core/math/mappers.pyx', 'cherab/core/math/mask.pyx', 'cherab/core/math/clamp.pyx'},
@@ -134,10 +135,16 @@ def check(run):
     check_caches(run, [m for k, m in prog.modules.items() if k.startswith('cherab.tools.equilibrium') and not k.endswith('#pxd')], 'C12-K', prog=prog)
 
 
+_PROG = [None]
+
+
 def _ret_vec(ci, run, K):
     fn = ci.methods.get('evaluate')
     if fn is None:
         raise AnalysisError('anchored method vanished: %s.evaluate' % ci.name)
+    if _PROG[0] is not None:
+        from ..inline import flatten, class_lookup
+        fn = flatten(fn, class_lookup(_PROG[0], ci))      # helpers (the zero-field test) expanded where they are called
     rets = [r for r in ast.walk(fn) if isinstance(r, ast.Return)]
     ev = SymEval()
     # "b = self._field.evaluate(r, z)" -> components b.x, b.y, b.z are leaves
